@@ -1188,8 +1188,13 @@ def run(tier, seed, replay=None):
         print("observed:", json.dumps(slim(obs), default=str)[:3000])
         print("oracle:", oracle(case, obs))
         return 0
-    ok = core.proof_stage(ctx, ["Props/C09.vo", "Model/C09Cases.vo"])
+    ok = core.proof_stage(ctx, ["Props/C09.vo", "Model/C09Cases.vo"], gen_needed=("__none__",))
     if not ok:
+        core.broken_proof(ctx, search)
+    # translator tie: coq/Gen/CharIO.v is regenerated from the source on every run; the generated
+    # writers / readers are proved equal to the hand model in Props/C09Gen.v
+    ok_gen = core.proof_stage(ctx, ["Props/C09Gen.vo"], props_file="Props/C09Gen.v", gen_needed=("CharIO",))
+    if not ok_gen:
         core.broken_proof(ctx, search)
     cases = gen_cases(ctx.rng, tier)
     for c in cases:
